@@ -277,6 +277,17 @@ func StructBuilder(env *Zlisp, name string,
 
 	//Q("good: have struct name '%v'", symN)
 
+	// sanity check the name, as for interface and func declarations
+	if builtin, builtTyp := env.IsBuiltinSym(symN); builtin {
+		return SexpNull,
+			fmt.Errorf("already have %s '%s', refusing to overwrite with struct",
+				builtTyp, symN.name)
+	}
+	if env.HasMacro(symN) {
+		return SexpNull, fmt.Errorf("Already have macro named '%s': refusing"+
+			" to define struct of same name.", symN.name)
+	}
+
 	structName := symN.name
 
 	{
